@@ -213,4 +213,35 @@ def bounded(pb, interp, rng, tier):
             fail("signal_transform.sequence-of-calls", "shapes (32,4) then (48,6)", f"{r1.shape}, {r2.shape}")
     except Exception as e:
         fail("signal_transform.sequence-of-calls.raises", "", f"{type(e).__name__}: {str(e)[:150]}")
+    # container helpers on an empty signal (NumPy- and Dask-backed): only the container changes
+    for be in ("numpy", "dask"):
+        z0 = pb.Signal(np.zeros((8, 3)), sample_rate=1 * u.kHz)[5:5]
+        if be == "dask":
+            z0 = z0.to_dask_array()
+        for hname in ("rechunk", "to_dask_array", "compute", "persist"):
+            ev += 1
+            try:
+                r = getattr(z0, hname)()
+                if type(r) is not type(z0) or r.shape != z0.shape or r.sample_rate != z0.sample_rate:
+                    fail(f"container-helper.empty-signal.{hname}", f"{be}-backed signal of shape (0, 3)", f"{type(r).__name__} {r.shape}")
+            except Exception as e:
+                fail(f"container-helper.empty-signal.{hname}", f"{be}-backed signal of shape (0, 3)", f"{type(e).__name__}: {str(e)[:100]}")
+    # signal_transform: keyword arguments of the wrapped function reach it on the Dask path too, and the
+    # declared dtype is the one the function produces
+    ev += 1
+    try:
+        @pb.signal_transform
+        def cast(x, dtype=np.float64):
+            return x.astype(dtype)
+        sn = pb.Signal(np.arange(12.).reshape(6, 2), sample_rate=1 * u.kHz)
+        sd = sn.to_dask_array()
+        rn, rd = cast(sn, dtype=np.float32), cast(sd, dtype=np.float32)
+        cd_ = np.asarray(rd.compute().data)
+        if rd.dtype != rn.dtype or cd_.dtype != np.asarray(rn.data).dtype:
+            fail("signal_transform.function-keyword-dtype", "cast(sig, dtype=np.float32)", f"numpy {rn.dtype}, dask declares {rd.dtype} computes {cd_.dtype}")
+        rs = pb.signal_transform(np.sqrt)(pb.Signal(da.from_array(np.arange(12).reshape(6, 2), chunks=(-1, 1)), sample_rate=1 * u.kHz))
+        if rs.dtype != np.float64 or np.asarray(rs.compute().data).dtype != np.float64:
+            fail("signal_transform.result-dtype", "np.sqrt on int64 Dask data", f"{rs.dtype}")
+    except Exception as e:
+        fail("signal_transform.function-keyword-dtype.raises", "", f"{type(e).__name__}: {str(e)[:150]}")
     return {"evaluations": ev, "distinct_nontrivial": len(distinct), "failures": fails, "samples": samples}
